@@ -698,6 +698,7 @@ def check_property(prop, tier="quick", repo=None, only_unit=None, only_target=No
         for f in futs:
             results.append(f.result())
     known = load_known()
+    pinned_notes = []
     violations = []
     known_hits = []
     n_obl = n_ok = 0
@@ -772,6 +773,16 @@ def check_property(prop, tier="quick", repo=None, only_unit=None, only_target=No
             if k:
                 known_hits.append((k, f))
                 continue
+            if f["description"].startswith(("stub:", "model:")):
+                # a stub met a use it does not model: tool limit, not a property violation
+                undecided.append("%s: %s: %s (the assumed model does not cover this use)" % (label, f["name"], f["description"]))
+                continue
+            if f["description"].startswith("pinned:") and status != "reproduced":
+                # code-derived exact-behaviour pin: only a change notice unless the property-level oracle
+                # of the native replay fails on the counterexample
+                pinned_notes.append("%s: %s: %s (native replay of the property-level oracle: %s)"
+                                    % (label, f["name"], f["description"], status))
+                continue
             violations.append((base + ".json", status, f, label))
     # ---- report
     for k, f in known_hits:
@@ -788,6 +799,8 @@ def check_property(prop, tier="quick", repo=None, only_unit=None, only_target=No
             print("  failed obligation: %s [%s] %s (native replay: %s)" % (label, f["name"], f["description"], status))
     for x in undecided:
         print("UNDECIDED %s" % x)
+    for x in pinned_notes:
+        print("PINNED-BEHAVIOUR-CHANGED (not a violation of the property) %s" % x)
     if not quiet and os.environ.get("VERIF_VERBOSE", "1") != "0":
         for r in results:
             print("  [%s/%s %s] obligations=%d failed=%d cbmc=%.1fs wall=%.1fs%s" %
@@ -796,7 +809,8 @@ def check_property(prop, tier="quick", repo=None, only_unit=None, only_target=No
     wall = time.time() - t0
     if write_evidence:
         write_evidence_file(prop, tier, seed, units, per_target, n_obl, n_ok, samples, bounded_units,
-                            reach_total, reach_ok, undecided, violations, known_hits, wall)
+                            reach_total, reach_ok, undecided + ["pinned-behaviour-changed: " + x for x in pinned_notes],
+                            violations, known_hits, wall)
     if violations:
         return 1
     if undecided:
